@@ -104,6 +104,15 @@ static bool gen_c09(uint64_t seed, const std::string &tier, uint64_t i, Plan &p)
     int n = (int)r.range(1, 3); bool any_accept = false;
     for (int q = 0; q < n; q++) { std::string h = "mx" + std::to_string(q) + ".r.example"; Json e = Json::arr(); e.push((q + 1) * 10); e.push(h); mxl.push(e); uint32_t ip = 0x0a020200 + (uint32_t)q; Json al = Json::arr(); al.push((long long)ip); a.set(h, al);
       std::string kind = q + 1 == n && r.chance(0.7) ? "accept" : r.pick(std::vector<std::string>{"refuse", "timeout", "accept"}); if (kind == "accept") any_accept = true; hosts.set(std::to_string(ip), Json::obj().set("kind", kind).set("delay", (long long)r.below(5))); }
+    // the first host answers before it is asked: a greeting that is not 220 and, in the same packet, a whole session's worth of further
+    // replies. Whatever another host is told afterwards, it has to answer for itself: in about half of these plans the second host
+    // refuses the sender, a recipient or the message.
+    if (n >= 2 && r.chance(0.3)) {
+      for (auto &hp : hosts.o) hp.second.set("kind", "accept"); any_accept = true;
+      { Json g0 = rep((int)r.pick(std::vector<int>{421, 451, 421, 554, 450}), "burst" + std::to_string(nr)); for (auto &hp : hosts.o) if (hp.first == std::to_string(0x0a020200u)) hp.second.set("greeting", g0); }
+      int bad = (int)r.below(6); if (bad == 0) sv.set("mail", rep(r.chance(0.5) ? 550 : 451)); else if (bad == 1) { Json rr2 = Json::arr(); for (int q = 0; q < nr; q++) rr2.push(rep(r.chance(0.5) ? 550 : 450)); sv.set("rcpt", rr2); } else if (bad == 2) sv.set("dot", rep(r.chance(0.5) ? 554 : 452)); else if (bad == 3) sv.set("data", rep(r.chance(0.5) ? 554 : 451));
+      sv.set("greeting", rep(220)); p.knobs.set("server", sv);
+    }
     // equal preferences (the order among them is random by design), and this host itself among the MX hosts: only better ones may be tried
     if (n > 1 && r.chance(0.3)) for (auto &e : mxl.a) e.a[0] = Json((long long)10);
     if (r.chance(0.3)) { std::string h = "self.r.example"; Json e = Json::arr(); e.push((long long)r.pick(std::vector<int>{5, 10, 15, 20, 25, 30, 35})); e.push(h); mxl.push(e); Json al = Json::arr(); al.push((long long)(r.chance(0.7) ? 0x0a000007 : 0x7f000001)); a.set(h, al); hosts.set(std::to_string(al.a[0].i()), Json::obj().set("kind", "accept")); lab_self = true; }
